@@ -76,6 +76,10 @@ func (x *Exec) call0(fr *frame, st *State, site ssa.Instruction, cc *ssa.CallCom
 	}
 	if callee == nil {
 		x.safety(fr, st, "nil", site.Pos(), not(eq(x.asRef(x.val(fr, cc.Value)), intLit(0))))
+		if y := rangeFuncYield(args); y != nil && sig.Results().Len() == 0 {
+			x.rangeFuncCall(fr, st, site, y)
+			return Value{}
+		}
 		return x.abstractCall(fr, st, site, "dynamic call "+nonEmpty(x.p.srcText(site.Pos(), "call"), "?"), nil, args, sig, true)
 	}
 	key := fnKey(callee)
